@@ -383,6 +383,39 @@ theorem C14_skeleton_callback_LockExecution : skel_callback_LockExecution = [
 theorem C14_skeleton_callback_MarkUnsubscribed : skel_callback_MarkUnsubscribed = [
   "lock c.executionMutex", "defer unlock c.executionMutex"] := by decide
 
+/-- NewDerivedVariable (variable.go:116): the other inputs are read (`Get`) inside the function passed to `d.Compute`, i.e. under the
+derived variable's update-order and value mutex. -/
+theorem C14_skeleton_NewDerivedVariable : skel_NewDerivedVariable = [
+  "func{", "func{", "func{", "return", "}func", "call d.Compute", "}func", "call input1.OnUpdate",
+  "return", "}func", "return"] := by decide
+
+/-- NewDerivedVariable2 (variable.go:125): the other inputs are read (`Get`) inside the function passed to `d.Compute`, i.e. under the
+derived variable's update-order and value mutex. -/
+theorem C14_skeleton_NewDerivedVariable2 : skel_NewDerivedVariable2 = [
+  "func{", "func{", "func{", "call input2.Get", "return", "}func", "call d.Compute", "}func",
+  "call input1.OnUpdate", "func{", "func{", "call input1.Get", "return", "}func", "call d.Compute",
+  "}func", "call input2.OnUpdate", "return", "}func", "return"] := by decide
+
+/-- NewDerivedVariable3 (variable.go:140): the other inputs are read (`Get`) inside the function passed to `d.Compute`, i.e. under the
+derived variable's update-order and value mutex. -/
+theorem C14_skeleton_NewDerivedVariable3 : skel_NewDerivedVariable3 = [
+  "func{", "func{", "func{", "call input2.Get", "call input3.Get", "return", "}func", "call d.Compute",
+  "}func", "call input1.OnUpdate", "func{", "func{", "call input1.Get", "call input3.Get", "return",
+  "}func", "call d.Compute", "}func", "call input2.OnUpdate", "func{", "func{", "call input1.Get",
+  "call input2.Get", "return", "}func", "call d.Compute", "}func", "call input3.OnUpdate", "return",
+  "}func", "return"] := by decide
+
+/-- NewDerivedVariable4 (variable.go:159): the other inputs are read (`Get`) inside the function passed to `d.Compute`, i.e. under the
+derived variable's update-order and value mutex. -/
+theorem C14_skeleton_NewDerivedVariable4 : skel_NewDerivedVariable4 = [
+  "func{", "func{", "func{", "call input2.Get", "call input3.Get", "call input4.Get", "return", "}func",
+  "call d.Compute", "}func", "call input1.OnUpdate", "func{", "func{", "call input1.Get",
+  "call input3.Get", "call input4.Get", "return", "}func", "call d.Compute", "}func",
+  "call input2.OnUpdate", "func{", "func{", "call input1.Get", "call input2.Get", "call input4.Get",
+  "return", "}func", "call d.Compute", "}func", "call input3.OnUpdate", "func{", "func{",
+  "call input1.Get", "call input2.Get", "call input3.Get", "return", "}func", "call d.Compute", "}func",
+  "call input4.OnUpdate", "return", "}func", "return"] := by decide
+
 end Skeletons
 
 end Hive.Derived
